@@ -4,6 +4,7 @@ from vf.skel import SKELETONS
 from vf.ref import iso as ref
 
 h.install_struct_model()
+h.stub_udf_crc()
 h.stub_progress()
 from pycdlib import dr as drmod  # noqa: E402
 
@@ -139,7 +140,7 @@ MANIFEST = {
 def obligations(tier):
     quick = tier == 'quick'
     obs = []
-    cfgs = [skel.cfg_of(3, None, None, False, False), skel.cfg_of(3, 3, '1.09', False, False), skel.cfg_of(1, 1, None, False, True)]
+    cfgs = [skel.cfg_of(3, None, None, False, False), skel.cfg_of(3, 3, '1.09', False, False), skel.cfg_of(1, 1, None, False, True), skel.cfg_of(3, None, None, True, False)]
     if not quick:
         cfgs += [skel.cfg_of(2, 2, '1.12', False, False), skel.cfg_of(4, 3, '1.10', False, False), skel.cfg_of(3, None, '1.09', False, True)]
     for sk in (('sk1', 'sk2') if quick else ('sk1', 'sk2', 'sk3', 'sk4')):
